@@ -546,7 +546,8 @@ def rewrite_body(rf: RepoFile, it: Item, d: FnDirective, rules: dict, info: FnIn
                     edits.append(Edit(t.start - base, end - base, nl, None))
                     rules['R3_dropped'] = rules.get('R3_dropped', 0) + 1
                 else:
-                    new = f'{{ let verif_c: bool = {cond}; assert(verif_c); }}'
+                    # `if true {..}` rather than a bare block: a bare block right after a loop body confuses Verus' parser
+                    new = f'if true {{ let verif_c: bool = {cond}; assert(verif_c); }}'
                     # keep it on one logical line start; preserve line count
                     edits.append(Edit(t.start - base, end - base, new.replace('\n', ' ') + nl, None))
                     rules['R3'] = rules.get('R3', 0) + 1
@@ -699,7 +700,7 @@ def rewrite_body(rf: RepoFile, it: Item, d: FnDirective, rules: dict, info: FnIn
                 da['dropped'] = 'inside R8 cut region'
     # an R6 substitution that falls INSIDE a debug_assert macro (rewritten as a whole by R3) is applied to the
     # R3 replacement text instead of as a separate edit
-    r3_edits = [e for e in edits if e.new.startswith('{ let verif_c: bool = ')]
+    r3_edits = [e for e in edits if e.new.startswith('if true { let verif_c: bool = ')]
     absorbed = set()
     for a, b, tl, many in d.subst:
         for e in list(edits):
